@@ -874,7 +874,9 @@ func (ts *TestScript) condition(cond string) (bool, error) {
 		return cond == runtime.GOARCH, nil
 	case strings.HasPrefix(cond, "exec:"):
 		prog := cond[len("exec:"):]
-		ok := execCache.Do(prog, func() any {
+		// The answer depends on the script's own PATH (and PATHEXT on Windows),
+		// so both are part of the key: scripts must not see each other's answers.
+		ok := execCache.Do(ts.Getenv("PATH")+"\x00"+ts.Getenv("PATHEXT")+"\x00"+prog, func() any {
 			_, err := execpath.Look(prog, ts.Getenv)
 			return err == nil
 		}).(bool)
